@@ -3981,23 +3981,36 @@ impl Command {
     /// this `Command`.
     fn get_global_arg_conflicts_with(&self, arg: &Arg) -> Vec<&Arg> // FIXME: This could probably have been an iterator
     {
-        arg.blacklist
-            .iter()
-            .map(|id| {
-                self.args
-                    .args()
-                    .chain(
-                        self.get_subcommands_containing(arg)
-                            .iter()
-                            .flat_map(|x| x.args.args()),
-                    )
-                    .find(|arg| arg.get_id() == id)
-                    .expect(
-                        "Command::get_arg_conflicts_with: \
-                    The passed arg conflicts with an arg unknown to the cmd",
-                    )
-            })
-            .collect()
+        let mut result = Vec::new();
+        for id in arg.blacklist.iter() {
+            if let Some(arg) = self
+                .args
+                .args()
+                .chain(
+                    self.get_subcommands_containing(arg)
+                        .iter()
+                        .flat_map(|x| x.args.args()),
+                )
+                .find(|arg| arg.get_id() == id)
+            {
+                result.push(arg);
+            } else if let Some((cmd, group)) = std::iter::once(self)
+                .chain(self.get_subcommands_containing(arg))
+                .find_map(|cmd| cmd.find_group(id).map(|group| (cmd, group)))
+            {
+                result.extend(
+                    cmd.unroll_args_in_group(&group.id)
+                        .iter()
+                        .map(|id| cmd.find(id).expect(INTERNAL_ERROR_MSG)),
+                );
+            } else {
+                panic!(
+                    "Command::get_arg_conflicts_with: \
+                    The passed arg conflicts with an arg unknown to the cmd"
+                );
+            }
+        }
+        result
     }
 
     /// Get a list of subcommands which contain the provided Argument
